@@ -34,7 +34,7 @@ OPTS = ["atol", "fraction", "hints", "replicate", "mic", "charges", "pp", "frame
 
 def cases(tier, seed):
     rng = np.random.default_rng([20, seed])
-    n = 220 if tier == "quick" else 6000
+    n = 220 if tier == "quick" else 40000
     out = []
     for j in range(n):
         single = OPTS[j % len(OPTS)] if j < 6 * len(OPTS) else None
@@ -388,7 +388,7 @@ def requirements(stats, tier):
     for o in OPTS[:9]:
         if not stats.has("option_exercised_singly", o):
             need.append("option class %s never exercised singly" % o)
-    if stats.get("outputs_compared") < (180 if tier == "quick" else 4000):
+    if stats.get("outputs_compared") < (180 if tier == "quick" else 30000):
         need.append("outputs compared: %d" % stats.get("outputs_compared"))
     io_ = stats.sets.get("io", set())
     for x in ("cif->lmpdat", "cif->cif", "lmpdat->lmpdat", "lmpdat->cif", "cml->lmpdat"):
